@@ -18,7 +18,7 @@ Mis(ev) ==
      \o Chk(o.value_w = x.value /\ o.value_s = x.value, ev, "_i-positional-value", x.value, <<o.value_w, o.value_s>>)
      \o Chk(o.stable_s = 1 /\ (ev.mode = "lref" \/ o.stable_r = 1), ev, "same-object-in-every-clause", 1, <<o.stable_s, o.stable_r>>)
      \o Chk(x.copies = -1 \/ o.copies = x.copies, ev, "no-copies-by-the-library", x.copies, o.copies)
-     \o Chk(x.retal = -1 \/ o.retal = x.retal, ev, "returned-reference-aliases-the-argument", x.retal, o.retal)
+     \o Chk(RetAl(ev.mode, ev.i, ev.kind) = -1 \/ o.retal = RetAl(ev.mode, ev.i, ev.kind), ev, "returned-reference-or-moved-on-result-is-the-caller's-object", RetAl(ev.mode, ev.i, ev.kind), o.retal)
      \o Chk(o.wrote = -1 \/ o.wrote = x.wrote, ev, "write-through-_i-seen-by-caller", x.wrote, o.wrote))
 TraceInit == l = 1 /\ viol = <<>> /\ done = FALSE
 Consume == /\ l <= Len(TraceLog) /\ l' = l + 1 /\ done' = done
